@@ -285,6 +285,67 @@ func (cm *c01Model) casesAt(fi *FuncInfo, n ast.Node, mv *c01MsgVar, depth int) 
 			}
 		}
 	}
+	if len(out) == 0 {
+		// a range test on the field number (`fn < 1 || fn > 6` excluded): every number in the range
+		lo, hi, hasLo, hasHi := int64(0), int64(0), false, false
+		for _, fact := range f.factsAtPos(n.Pos()) {
+			l, op, rr, ok := cmpNorm(fact.expr)
+			if !ok || (op != token.LSS && op != token.LEQ) {
+				continue
+			}
+			l, rr = c01StripConv(info, l), c01StripConv(info, rr)
+			lc, lok := constInt(info, l)
+			rc, rok := constInt(info, rr)
+			switch {
+			case rok && !lok && cm.isFieldNumberOf(f, l, mv.obj): // fn op C
+				switch {
+				case op == token.LSS && fact.val: // fn < C
+					if !hasHi || rc-1 < hi {
+						hi, hasHi = rc-1, true
+					}
+				case op == token.LEQ && fact.val:
+					if !hasHi || rc < hi {
+						hi, hasHi = rc, true
+					}
+				case op == token.LSS && !fact.val: // fn >= C
+					if !hasLo || rc > lo {
+						lo, hasLo = rc, true
+					}
+				case op == token.LEQ && !fact.val: // fn > C
+					if !hasLo || rc+1 > lo {
+						lo, hasLo = rc+1, true
+					}
+				}
+			case lok && !rok && cm.isFieldNumberOf(f, rr, mv.obj): // C op fn
+				switch {
+				case op == token.LSS && fact.val: // C < fn
+					if !hasLo || lc+1 > lo {
+						lo, hasLo = lc+1, true
+					}
+				case op == token.LEQ && fact.val:
+					if !hasLo || lc > lo {
+						lo, hasLo = lc, true
+					}
+				case op == token.LSS && !fact.val: // fn <= C
+					if !hasHi || lc < hi {
+						hi, hasHi = lc, true
+					}
+				case op == token.LEQ && !fact.val: // fn < C
+					if !hasHi || lc-1 < hi {
+						hi, hasHi = lc-1, true
+					}
+				}
+			}
+		}
+		if hasLo && hasHi && hi-lo < 32 {
+			for v := lo; v <= hi; v++ {
+				if !seen[int(v)] {
+					seen[int(v)] = true
+					out = append(out, int(v))
+				}
+			}
+		}
+	}
 	if len(out) > 0 || depth > 3 {
 		return out
 	}
@@ -560,16 +621,30 @@ func (cm *c01Model) build() {
 				if !ok || !isMethod(callee(info, call), protoscanMsg, "Iterator") {
 					return true
 				}
-				f := cm.iterFieldIn(fi, s.Lhs[0])
-				if f == nil {
-					return true
-				}
 				sel, ok := ast.Unparen(call.Fun).(*ast.SelectorExpr)
 				if !ok {
 					return true
 				}
 				mv := cm.msgVarOf(sel.X)
 				if mv == nil {
+					return true
+				}
+				f := cm.iterFieldIn(fi, s.Lhs[0])
+				if f == nil {
+					// `*table[fn], err = X.Iterator(...)`: a table of pointers to the cached iterators indexed by the
+					// field number: entry K is filled under field number K
+					if tab, idx := cm.iterTableStore(fi, s.Lhs[0]); tab != nil && cm.isFieldNumberOf(c01FnOf(cm.p, fi).innermost(call), idx, mv.obj) {
+						for _, c := range cm.casesAt(fi, call, mv, 0) {
+							tf := tab[int64(c)]
+							if tf == nil {
+								continue
+							}
+							if cm.iters[tf] == nil {
+								cm.iters[tf] = &c01Iter{field: tf}
+							}
+							cm.iters[tf].sources = append(cm.iters[tf].sources, c01IterSrc{msg: mv.msg, num: c, pos: s.Pos(), fi: fi})
+						}
+					}
 					return true
 				}
 				it := cm.iters[f]
